@@ -5,7 +5,8 @@ from sx import nomsem, sym, active
 from sx.sym import And, Or, Not
 import xmlref
 
-GRAMMAR_FILES = [REPO + "/parser/src/lib.rs", REPO + "/nom/src/lib.rs", REPO + "/nom/src/xmlchar.rs", REPO + "/nom/src/helper.rs"]
+GRAMMAR_FILES = [REPO + "/parser/src/lib.rs", REPO + "/parser/src/model.rs", REPO + "/nom/src/lib.rs", REPO + "/nom/src/xmlchar.rs", REPO + "/nom/src/helper.rs"]
+INFO_FILE = REPO + "/info/src/lib.rs"
 PREDEFINED = ["lt", "gt", "amp", "apos", "quot"]
 
 _dump = None
@@ -14,8 +15,51 @@ _dump = None
 def grammar():
     global _dump
     if _dump is None:
-        _dump = nomsem.Dump(GRAMMAR_FILES)
+        _dump = nomsem.Dump(GRAMMAR_FILES + [INFO_FILE])
     return nomsem.Grammar(_dump)
+
+
+def charref_fn_model(g, name):
+    """Read info::char_from_char10/16 from the dump:
+         let num = <value.parse::<u32>() | u32::from_str_radix(value, R)>.map_err(..)?;
+         char::from_u32(num) [.filter(|c| PRED(*c))]* .ok_or(..)
+       -> (radix, [Pred...]).  Any other shape is Unsupported (inconclusive), never a verdict."""
+    fn = g.dump.fns.get((INFO_FILE, name))
+    if fn is None:
+        raise nomsem.Unsupported("no fn %s" % name)
+    g.used_fns[(INFO_FILE, name)] = g.dump.fn_hash(fn)
+    st = fn["body"]["stmts"]
+    if len(st) != 2 or st[0]["k"] != "let" or st[1]["k"] != "expr":
+        raise nomsem.Unsupported("%s: body shape" % name)
+    var = st[0]["pat"].get("name")
+    e = st[0]["init"]
+    if e["k"] != "try":
+        raise nomsem.Unsupported("%s: no ? on the numeric parse" % name)
+    e = e["e"]
+    if not (e["k"] == "mcall" and e["method"] == "map_err"):
+        raise nomsem.Unsupported("%s: map_err" % name)
+    e = e["recv"]
+    param = nomsem.pname(fn["params"][0])
+    if e["k"] == "mcall" and e["method"] == "parse" and (e.get("turbofish") or "").replace(" ", "") == "::<u32>" and e["recv"].get("segs") == [param]:
+        radix = 10
+    elif (e["k"] == "call" and e["func"].get("segs") == ["u32", "from_str_radix"] and e["args"][0].get("segs") == [param]
+          and e["args"][1]["k"] == "lit" and e["args"][1]["t"] == "int"):
+        radix = int(e["args"][1]["v"])
+    else:
+        raise nomsem.Unsupported("%s: numeric parse shape" % name)
+    if radix not in (10, 16):
+        raise nomsem.Unsupported("%s: radix %d" % (name, radix))
+    e = st[1]["e"]
+    if not (e["k"] == "mcall" and e["method"] == "ok_or"):
+        raise nomsem.Unsupported("%s: ok_or" % name)
+    e = e["recv"]
+    preds = []
+    while e["k"] == "mcall" and e["method"] == "filter":
+        preds.append(nomsem.Pred(g, e["args"][0], {}, INFO_FILE))
+        e = e["recv"]
+    if not (e["k"] == "call" and e["func"].get("segs") == ["char", "from_u32"] and e["args"][0].get("segs") == [var]):
+        raise nomsem.Unsupported("%s: char::from_u32 shape" % name)
+    return radix, preds
 
 
 def digits_value(inp, i, m, radix, W=40):
@@ -97,6 +141,41 @@ class Impl:
                 self.n_digits[16] = n
         if set(self.n_digits) != {10, 16}:
             raise nomsem.Unsupported("char_ref shape")
+        # XmlCharReference::node: radix 10 -> char_from_char10, 16 -> char_from_char16 (read from the dump)
+        self.charref_models = {}
+        node_fns = [fn for fn in g.dump.methods.get((INFO_FILE, "XmlCharReference", "node"), [])]
+        if len(node_fns) != 1:
+            raise nomsem.Unsupported("XmlCharReference::node not found")
+        g.used_fns[(INFO_FILE, "XmlCharReference::node")] = g.dump.fn_hash(node_fns[0])
+        import json as _json
+        txt = _json.dumps(node_fns[0]["body"])
+        for radix, fname in ((10, "char_from_char10"), (16, "char_from_char16")):
+            if fname not in txt:
+                raise nomsem.Unsupported("XmlCharReference::node does not call %s" % fname)
+            r, preds = charref_fn_model(g, fname)
+            self.charref_models[radix] = (r, preds)
+        self._check_charref_dispatch(node_fns[0])
+
+    def _check_charref_dispatch(self, fn):
+        """match radix { 10 => char_from_char10(..), 16 => char_from_char16(..), .. }"""
+        found = {}
+
+        def walk(v):
+            if isinstance(v, dict):
+                if v.get("k") == "match":
+                    for arm in v["arms"]:
+                        p = arm["pat"]
+                        b = arm["body"]
+                        if p["k"] == "lit" and b.get("k") == "call" and b["func"].get("segs"):
+                            found[int(p["lit"]["v"])] = b["func"]["segs"][-1]
+                for x in v.values():
+                    walk(x)
+            elif isinstance(v, list):
+                for x in v:
+                    walk(x)
+        walk(fn["body"])
+        if found.get(10) != "char_from_char10" or found.get(16) != "char_from_char16":
+            raise nomsem.Unsupported("XmlCharReference::node radix dispatch %r" % found)
 
     def grammar_accepts(self):
         return self.run.accepts_all(self.doc)
@@ -130,8 +209,17 @@ class Impl:
 
     def charref_ok(self, i, m, radix):
         """info::char_from_char10/16: str::parse::<u32> / u32::from_str_radix succeeds and char::from_u32 is Some"""
-        v = digits_value(self.inp, i, m, radix)
-        return Or(vin(v, 0, 0xD7FF), vin(v, 0xE000, 0x10FFFF))
+        fn_radix, preds = self.charref_models[radix]
+        v = digits_value(self.inp, i, m, fn_radix)
+        if fn_radix == 10 and radix == 16:
+            # decimal parse of a hex-digit string fails on letters
+            raise nomsem.Unsupported("radix mismatch between grammar and info")
+        ok = Or(vin(v, 0, 0xD7FF), vin(v, 0xE000, 0x10FFFF))   # char::from_u32 is Some (and parse fits u32)
+        if preds:
+            c = v if isinstance(v, int) else z3.Extract(sym.CW - 1, 0, v)
+            for p in preds:
+                ok = And(ok, p(c))
+        return ok
 
     def accepts(self):
         acc = self.grammar_accepts()
@@ -143,4 +231,6 @@ class Impl:
 def reference(inp, mode, declared=None, relax=()):
     r = xmlref.XmlRef(inp, mode, declared)
     r.relax = set(relax)
+    if relax and mode != "lenient":
+        raise ValueError("relaxations only apply to the lenient language")
     return r.document()
